@@ -954,7 +954,95 @@ pub fn run(tier: &str, seed: u64, widen: bool) -> Report {
     for chunk in cases.chunks(400) {
         check_cases(chunk, &mut rep, threads);
     }
+    diamonds(&mut rep, &mut rng);
     rep
+}
+
+/// Const positions whose walk reaches the SAME global twice without any cycle (the expression
+/// chains above are single paths): items of a constant array that share a constant, two constants
+/// that are bindings to the same constant, a chain that crosses the same import alias twice
+/// (main -> other -> main -> other), in the three const positions. Every program is const by the
+/// documented rule: it must build and print the value (seeded change C15_3: "reached twice" was
+/// taken for "refers to itself").
+fn diamonds(rep: &mut Report, rng: &mut Rng) {
+    use crate::e2e::{self, Program};
+    if !e2e::available() {
+        return;
+    }
+    let n = 2 + rng.below(6);
+    let mut progs: Vec<(String, Program, String)> = vec![];
+    // items of a constant global array share a constant; two bindings to the same constant
+    progs.push((
+        "array-items-share-a-constant".into(),
+        Program::single(&format!(
+            "core :: #mod(\"core\");\nN : usize : {n};\nW : usize : N;\nH : usize : N;\nSQUARE :: usize.[N, N];\nAREA :: usize.[W, H];\nPAIR :: usize.[N, W, N];\nmain :: () {{\n    board : [N]i32;\n    core.println(board.len + SQUARE[0] + SQUARE[1] + AREA[0] + AREA[1] + PAIR[2]);\n}}\n"
+        )),
+        format!("{}", 6 * n),
+    ));
+    // the same, the constants living in an imported file
+    progs.push((
+        "array-items-share-an-imported-constant".into(),
+        Program {
+            files: vec![
+                ("main.capy".into(), "core :: #mod(\"core\");\nd :: #import(\"d.capy\");\nBOTH :: usize.[d.N, d.N];\nmain :: () {\n    a : [d.W]i32;\n    core.println(a.len + BOTH[0] + BOTH[1] + d.AREA[1]);\n}\n".into()),
+                ("d.capy".into(), format!("N : usize : {n};\nW : usize : N;\nH : usize : N;\nAREA :: usize.[W, H];\n")),
+            ],
+        },
+        format!("{}", 4 * n),
+    ));
+    // the chain crosses the import alias `other` twice: array size, discriminant, comptime argument
+    let other = format!("m :: #import(\"main.capy\");\nUNIT : usize : {n};\nROW : usize : m.BASE;\nDISC : u8 : m.DBASE;\nDUNIT : u8 : {n};\n");
+    progs.push((
+        "import-alias-crossed-twice:array-size".into(),
+        Program {
+            files: vec![
+                ("main.capy".into(), "core :: #mod(\"core\");\nother :: #import(\"other.capy\");\nBASE : usize : other.UNIT;\nDBASE : u8 : other.DUNIT;\nmain :: () {\n    row : [other.ROW]i32;\n    core.println(row.len);\n}\n".into()),
+                ("other.capy".into(), other.clone()),
+            ],
+        },
+        format!("{n}"),
+    ));
+    progs.push((
+        "import-alias-crossed-twice:comptime-argument".into(),
+        Program {
+            files: vec![
+                ("main.capy".into(), "core :: #mod(\"core\");\nother :: #import(\"other.capy\");\nBASE : usize : other.UNIT;\nDBASE : u8 : other.DUNIT;\ntwice :: (comptime k: usize) -> usize { k * 2 }\nmain :: () {\n    core.println(twice(other.ROW));\n}\n".into()),
+                ("other.capy".into(), other.clone()),
+            ],
+        },
+        format!("{}", 2 * n),
+    ));
+    progs.push((
+        "import-alias-crossed-twice:discriminant".into(),
+        Program {
+            files: vec![
+                ("main.capy".into(), "core :: #mod(\"core\");\nother :: #import(\"other.capy\");\nBASE : usize : other.UNIT;\nDBASE : u8 : other.DUNIT;\nE :: enum { A | other.DISC, B };\nmain :: () {\n    e : E = E.A;\n    switch e { .A => core.println(1), .B => core.println(2), }\n}\n".into()),
+                ("other.capy".into(), other),
+            ],
+        },
+        "1".into(),
+    ));
+    let ps: Vec<Program> = progs.iter().map(|p| p.1.clone()).collect();
+    let outs = e2e::run_all(&ps, e2e::Limits::default());
+    for ((what, prog, want), out) in progs.iter().zip(outs.iter()) {
+        rep.case(Some(format!("diamond|{what}|{n}")));
+        rep.hit(&format!("diamond:{what}"));
+        let got = if out.built && out.run_status == Some(0) {
+            out.stdout().trim().to_string()
+        } else {
+            format!("{} {}", out.run_summary(), out.compile_out.lines().filter(|l| l.starts_with("error") || l.contains("panicked")).take(2).collect::<Vec<_>>().join(" / "))
+        };
+        if &got != want {
+            rep.oracle_fail(
+                &format!("const-by-the-rule-rejected:{what}"),
+                json!({"stream": "diamonds", "what": what, "files": prog.files}),
+                json!(got),
+                json!(want),
+                "a value that is const by the documented rule (no binding refers to itself) was not accepted in a const position, or has the wrong value",
+            );
+        }
+        rep.traces_validated += 1;
+    }
 }
 
 fn clamp(ex: &mut Ex) {
